@@ -318,6 +318,55 @@ fn scripted(seed: u64, jitter: u64, rep: &Report) -> Result<(), String> {
     Ok(())
 }
 
+/// Session-mode pool of size 1: a client whose task ends ABNORMALLY (protocol error) while it holds a
+/// clean, idle server; the next client gets that server; the first client's key must be dead.
+fn abnormal_exit_in_session_mode(seed: u64, rep: &Report) -> Result<(), String> {
+    let mut rng = Rng::new(seed);
+    let (mut cell, mut cfg) = simple_cell(&["primary"], 1, "session");
+    cfg.gset("connect_timeout", "5000");
+    cell.start_pgcat(&cfg, &StartOpts::default()).map_err(|e| format!("start: {:?}", e))?;
+    let addr = cell.addr();
+    for round in 0..3 {
+        let how = *rng.pick(&["truncated_close", "truncated_bind", "unknown_type", "short_frame"]);
+        let mut x = conn(&cell, "X")?;
+        let (xp, xk) = (x.pid, x.key);
+        let _ = x.query(&format!("SELECT 1 {}", tag("X", &format!("X.m{}", round), "")), 5000).map_err(|(m, e)| format!("X: {:?} {}", e, summarize(&m)))?;
+        // X holds its (clean, idle) server; now its task dies on a decoding error
+        let bytes: Vec<u8> = match how {
+            "truncated_close" => crate::proto::Msg::new(b'C', vec![b'S']).encode(),
+            "truncated_bind" => crate::proto::Msg::new(b'B', vec![b'x']).encode(),
+            "unknown_type" => crate::proto::Msg::new(b'~', vec![1, 2, 3]).encode(),
+            _ => vec![b'Q', 0, 0, 0, 2],
+        };
+        let _ = x.send(&bytes);
+        let _ = x.send(&proto::sync());
+        let _ = x.drain_to_eof(1500);
+        drop(x);
+        sleep_ms(50);
+        let mut y = conn(&cell, "Y")?;
+        y.send(&proto::query(&format!("SELECT 1 {}", tag("Y", &format!("Y.m{}", round), "sleep=400")))).map_err(|e| e.to_string())?;
+        if !wait_running(&cell, "Y", 3000) {
+            return Err("Y's statement never started".into());
+        }
+        let n0 = cell.log.len();
+        send_cancel(&addr, xp, xk).map_err(|e| e.to_string())?;
+        rep.count("cancels_with_key_of_abnormally_ended_client", 1);
+        let r = y.read_until_ready(5000).map_err(|(m, e)| format!("Y reply: {:?} {}", e, summarize(&m)))?;
+        sleep_ms(60);
+        let cs = cancels_since(&cell, n0);
+        if first_error(&r).is_some() || !cs.is_empty() {
+            rep.violation(
+                &format!("C10|key_of_abnormally_ended_client_cancelled_another_clients_statement|exit={}", how),
+                &format!("X's task ended on a protocol error ({}) while it held a server in a session-mode pool; Y then got that server; a cancel with X's key: Y got {}, {} CancelRequests at the server", how, summarize(&r), cs.len()),
+                json!({"seed": seed, "pgcat_log_tail": cell.pg().log_tail(8)}),
+            );
+        }
+        y.terminate();
+        sleep_ms(30);
+    }
+    Ok(())
+}
+
 /// Concurrent storm: several clients running sleeps on pool_size 2-3, cancels with valid keys.
 fn storm(seed: u64, rep: &Report) -> Result<(), String> {
     let mut rng = Rng::new(seed);
@@ -459,7 +508,7 @@ pub fn run(tier: &str) -> i32 {
         "C10",
         tier,
         "exploration",
-        "scripted scenario (pool_size 1): cancel with a valid key while the statement runs; keys of idle clients; a stale key while another client runs on the same server connection; random keys; a disconnected client's key; key reuse right after the transaction ended (jitter between cleanup and release); plus concurrent cancel storms on pool_size 1-3; oracle = CancelRequest packets logged by the mock (target session, what it was running) joined with the harness's own cancel log; distinct = scenarios x seeds",
+        "scripted scenario (pool_size 1): cancel with a valid key while the statement runs; keys of idle clients; a stale key while another client runs on the same server connection; random keys; a disconnected client's key; key reuse right after the transaction ended (jitter between cleanup and release); cancel during an autocommit COPY FROM STDIN; during the rollback of a vanished client; key of a client whose task ended on a protocol error in a session-mode pool; plus concurrent cancel storms on pool_size 1-3; oracle = CancelRequest packets logged by the mock (target session, what it was running) joined with the harness's own cancel log; distinct = scenarios x seeds",
     );
     let thorough = rep.thorough();
     let n = if thorough { 1500 } else { 60 };
@@ -470,6 +519,8 @@ pub fn run(tier: &str) -> i32 {
         rep.distinct(seeds[i].0);
         let r = if i % 3 == 2 {
             storm(seeds[i].0, &rep)
+        } else if i % 6 == 1 {
+            abnormal_exit_in_session_mode(seeds[i].0, &rep)
         } else {
             scripted(seeds[i].0, seeds[i].1, &rep)
         };
